@@ -39,7 +39,15 @@ def _alarm(signum, frame):
 
 
 def guarded(f, seconds=5):
-    """('ok', v) | ('err', cls) | ('hang', None)"""
+    """('ok', v) | ('err', cls) | ('hang', None); a call that exceeds the watchdog is tried once more with 60 s before it
+    is called a hang, so that a loaded machine does not raise an alarm"""
+    r = _guarded(f, seconds)
+    if r[0] == 'hang' and seconds < 60:
+        r = _guarded(f, 60)
+    return r
+
+
+def _guarded(f, seconds):
     old = signal.signal(signal.SIGALRM, _alarm)
     signal.alarm(seconds)
     try:
